@@ -72,7 +72,9 @@ def scenario(main, body, imr0, timer, kb_irq=True, read_kil=True):
                    # the very last byte of the 64 KiB card window: load (what an earlier round / a restore left there), keep,
                    # then store the non-zero value just read back from 0x40010
                    0x88, 0xFF, 0xFF, 0x04, 0xB0, 0x24, 0x88, 0x10, 0x00, 0x04, 0xA8, 0xFF, 0xFF, 0x04,
-                   0x88, 0x01, 0x20, 0x00, 0xB0, 0x24,
+                   0x88, 0x05, 0x20, 0x00, 0xB0, 0x24,
+                   # ... and again, and the right chip's (a status read clears BUSY: the second one sees it clear)
+                   0x88, 0x05, 0x20, 0x00, 0xB0, 0x24, 0x88, 0x09, 0x20, 0x00, 0xB0, 0x24,
                    # LCD data read on the left chip (advances its column counter without any write), value kept
                    0x88, 0x0B, 0x20, 0x00, 0xB0, 0x24,
                    0x04, SUB & 0xFF, (SUB >> 8) & 0xFF]) + SLEEPS[main])
